@@ -219,7 +219,7 @@ class Model:
             raise AnalysisError(f"anchor vanished: {suite_cls.qualname}.{name}")
         return m
 
-    def paths(self, suite_name, meth, args, extra_summaries=None, **kw):
+    def paths(self, suite_name, meth, args, extra_summaries=None, force_bool=False, **kw):
         cls = self.suite(suite_name)
         m = self.method(cls, meth)
         summ = dict(self.summ)
@@ -228,7 +228,10 @@ class Model:
 
         def run(it):
             recv = [] if m.kind == "staticmethod" else [cls]
-            return it.call_func(m, recv + list(args), {})
+            r = it.call_func(m, recv + list(args), {})
+            if force_bool and isinstance(r, Term) and r.sort == "bool":
+                return it.truth(r)      # split on a returned boolean term
+            return r
         return enumerate_paths(self.world, run, summaries=summ, class_hooks=list(self.class_hooks), **kw), m
 
 
